@@ -280,6 +280,10 @@ pub fn next_solution<'a>(sn: Rc<RefCell<SolutionNode<'a>>>)
             sn_ref.child = None;
             loop {
 
+                // A cut in the body of a rule disables backtracking on this
+                // node: when that body fails, the remaining rules are not tried.
+                if sn_ref.no_backtracking { return None; }
+
                 if sn_ref.rule_index >= sn_ref.number_facts_rules { return None; }
 
                 // The fallback_id saves the logic variable ID (LOGIC_VAR_ID),
